@@ -130,9 +130,9 @@ func (fc *FnCtx) libCall(st *State, name string, callee *ssa.Function, c *ssa.Ca
 	case "fmt.Sprintf":
 		return tv(fc.S.Fresh("sprintf", SStr)), true
 	case "math.Ceil":
-		return tv(app(SF64, "fp.roundToIntegral RTP", args[0].T)), true
+		return tv(te.FOp("ceil", args[0].T)), true
 	case "math.Floor":
-		return tv(app(SF64, "fp.roundToIntegral RTN", args[0].T)), true
+		return tv(te.FOp("floor", args[0].T)), true
 	case "sort.Slice":
 		return fc.sortSlice(st, c, args, in, site), true
 	}
